@@ -435,25 +435,33 @@ func checkCase(c Case, d *driver) *caseReport {
 				rep.Repeats++
 			}
 		}
-		// nothing after Stop
+		// nothing after Stop.  Three classes:
+		//  - Stop completed BEFORE the check of `started` of an occurrence, yet that occurrence (or a later one) is
+		//    called, or two or more calls begin after a completed Stop: C20/stop-ignored/... (never expected;
+		//    C20_stop, C20_stop_late_bound);
+		//  - Stop completed between the check and the call and exactly that one call still begins: the known
+		//    finding C20/stop-completes-between-check-and-call-one-more-call (C20_stop_counterexample), counted in
+		//    rep.LateStop and reported once per check by the engine;
 		switch {
 		case c.StopMode == "in-function", c.StopMode == "in-now" && c.StopK == 0:
 			if o.AfterStop != 0 {
-				rep.fail("prop", "C20/prop/call-after-stop/"+c.StopMode,
-					fmt.Sprintf("%d call(s) of the function began after Stop had returned (Stop outside the check-to-call window)", o.AfterStop), true)
+				rep.fail("prop", "C20/stop-ignored/call-after-stop-completed-before-check/"+c.StopMode,
+					fmt.Sprintf("%d call(s) of the function began after a Stop that had completed before the check of `started` (stop point %d)", o.AfterStop, c.StopK), true)
 			}
 		case c.StopMode == "in-now":
-			// Stop lands between the check of `started` and the call: C20_stop_counterexample says exactly one
-			// call still goes through.  The model comparison above already fixes the number of stamps.
-			if o.AfterStop != 1 {
+			// Stop lands between the check of `started` and the call: the model says exactly one call goes through.
+			if o.AfterStop > 1 {
+				rep.fail("prop", "C20/stop-ignored/two-or-more-calls-after-stop/in-now",
+					fmt.Sprintf("Stop inside watch.Now() #%d: %d calls began after Stop had completed (bound: 1)", c.StopK, o.AfterStop), true)
+			} else if o.AfterStop == 0 {
 				rep.fail("diff", "C20/diff/late-stop-window",
-					fmt.Sprintf("Stop inside watch.Now() #%d: model expects exactly 1 call after Stop, Engine made %d", c.StopK, o.AfterStop), true)
+					fmt.Sprintf("Stop inside watch.Now() #%d: model expects exactly 1 call after Stop, Engine made 0", c.StopK), true)
 			}
 			rep.LateStop = o.AfterStop
 		default:
 			if o.AfterStop > 1 {
-				rep.fail("prop", "C20/prop/call-after-stop/async",
-					fmt.Sprintf("%d calls of the function began after Stop had returned (at most the one in flight is possible)", o.AfterStop), true)
+				rep.fail("prop", "C20/stop-ignored/two-or-more-calls-after-stop/async",
+					fmt.Sprintf("%d calls of the function began after Stop had completed (at most the one in flight is possible)", o.AfterStop), true)
 			}
 			rep.LateStop = o.AfterStop
 		}
@@ -569,10 +577,13 @@ type Witness struct {
 	Reproduced bool        `json:"reproduced"`
 	Detail     string      `json:"detail"`
 	Case       interface{} `json:"case"`
+	Outcome    interface{} `json:"outcome,omitempty"`
+	Model      string      `json:"model,omitempty"`
 }
 
-func runWitnesses(d *driver) []Witness {
+func runWitnesses(d *driver) ([]Witness, []Failure) {
 	var ws []Witness
+	var stronger []Failure
 	add := func(name, theorem string, c Case, cond func(o Outcome) bool, describe func(o Outcome) string) {
 		rep := checkCase(c, d)
 		o := rep.Outcome
@@ -580,7 +591,12 @@ func runWitnesses(d *driver) []Witness {
 		for _, f := range rep.Failures {
 			detail += "; UNEXPECTED " + f.Signature + ": " + f.Detail
 		}
-		ws = append(ws, Witness{name, theorem, cond(o) && len(rep.Failures) == 0, detail, c})
+		ws = append(ws, Witness{name, theorem, cond(o) && len(rep.Failures) == 0, detail, c, o, rep.Model})
+		for _, f := range rep.Failures {
+			if strings.HasPrefix(f.Signature, "C20/stop-ignored/") {
+				stronger = append(stronger, f)
+			}
+		}
 	}
 	// 1. late Stop: Stop completes inside watch.Now() of the first stamped occurrence
 	add("late-stop", "C20_stop_counterexample",
@@ -617,7 +633,7 @@ func runWitnesses(d *driver) []Witness {
 	ws = append(ws, deafWitness("all-skipped-deaf", Case{Kind: "start", Timer: 2000000, Occ: 1, Skipped: 1, Script: []int64{0, 1, 2}}))
 	// 6. occurrences == 0: empty inner loop, busy outer loop
 	ws = append(ws, deafWitness("zero-occurrences-spin", Case{Kind: "start", Timer: 2000000, Occ: 0, Skipped: 0, Script: []int64{0, 1, 2}}))
-	return ws
+	return ws, stronger
 }
 
 // deafWitness: Start, wait, Stop, wait: the goroutine never reads the clock again, never calls the function and
@@ -646,7 +662,7 @@ func deafWitness(name string, c Case) Witness {
 	s, k := atomic.LoadInt64(&served), atomic.LoadInt64(&calls)
 	return Witness{name, "C20_degenerate_silent", !returned && s == 1 && k == 0,
 		fmt.Sprintf("timer=%d occurrences=%d skipped=%d: %d clock reading(s), %d call(s), Start returned within 300ms of Stop: %v",
-			c.Timer, c.Occ, c.Skipped, s, k, returned), c}
+			c.Timer, c.Occ, c.Skipped, s, k, returned), c, nil, ""}
 }
 
 // ---------------------------------------------------------------- main
@@ -666,6 +682,8 @@ type Summary struct {
 	Failures   []Failure                 `json:"failures"`
 	Witnesses  []Witness                 `json:"witnesses,omitempty"`
 	Retried    int                       `json:"realtime_retries"`
+	LateStops  int                       `json:"late_stop_calls"`
+	LateSample interface{}               `json:"late_stop_sample,omitempty"`
 	WallMs     int64                     `json:"wall_ms"`
 	Aborted    string                    `json:"aborted,omitempty"`
 	GoMaxProcs int                       `json:"gomaxprocs"`
@@ -733,7 +751,9 @@ func main() {
 		emit(2)
 	}
 	if *witness {
-		sum.Witnesses = runWitnesses(d)
+		var stronger []Failure
+		sum.Witnesses, stronger = runWitnesses(d)
+		sum.Failures = append(sum.Failures, stronger...)
 		sum.Evals = len(sum.Witnesses)
 		emit(0) // os.Exit: the deaf goroutines die with the process
 	}
@@ -844,8 +864,14 @@ func main() {
 		rtWorkers = 1
 	}
 	rtReps := runPool(rtCases, rtWorkers, d, 25)
+	confirmed := 0
 	for i, rep := range rtReps {
 		if rep == nil {
+			continue
+		}
+		if len(rep.Failures) == 0 && !rep.PhaseOK && confirmed >= 2 {
+			rep.PhaseNote = "not retried: two realtime cases already failed every attempt"
+			rep.Case.Attempt = -1
 			continue
 		}
 		for attempt := 1; attempt <= 3 && len(rep.Failures) == 0 && !rep.PhaseOK; attempt++ {
@@ -857,6 +883,7 @@ func main() {
 			rtReps[i] = rep
 		}
 		if len(rep.Failures) == 0 && !rep.PhaseOK {
+			confirmed++
 			rep.fail("prop", "C20/realtime/phase-coverage",
 				"the occurrences stamped in each cycle are not the ones with i >= skipped, even with 27x longer periods: "+rep.PhaseNote, true)
 		}
@@ -897,6 +924,12 @@ func main() {
 		}
 		if rep.Agreed {
 			sum.Agreed++
+		}
+		if rep.LateStop == 1 && len(rep.Failures) == 0 {
+			sum.LateStops++
+			if sum.LateSample == nil {
+				sum.LateSample = map[string]interface{}{"case": c, "outcome": rep.Outcome, "model": rep.Model}
+			}
 		}
 		if rep.Nontriv {
 			digests[rep.Digest] = true
